@@ -1,6 +1,16 @@
 # per-property claim texts used by mk_manifest.py
 NA = {}
 CLAIMS = {
+ 'C18': {
+  'technique': 'Coq proofs over R (all world sizes, shard contents, reductions) on expressions regenerated from the distributed optimizers; real gloo multi-process runs vs a single-process reference; binary64 correspondence of the generated release',
+  'text': ('Proved over R for the expressions generated from DistributedDPOptimizer / DistributedDPOptimizerFastGradientClipping (add_noise rank test, reduce_gradients, scale_grad denominator, '
+           'per-worker expected batch size B/W): for EVERY world size >= 1, every list of per-rank clipped sums (empty shards included), both loss reductions and every accumulation count, '
+           'every rank ends with (sum_w S_w + z)/(B k) (resp. sum_w S_w + z), the single-process release on the union; noise is added by rank 0 only; SimpleDistributedPerLayerOptimizer '
+           'resolves clipping to the per-layer class and noise / reduce / step to the distributed one; DPDDP broadcasts from rank 0. PARTIAL for DistributedPerLayerOptimizer (hooks + torch DDP): '
+           'with torch\'s accumulate-and-average modelled from observation the release is 2/W times the reference -- equal for two workers (theorem), refuted for W = 3 (Findings/C18.v, '
+           'known finding). Real gloo groups of 1-4 CPU ranks (flat / per-layer ew+hooks / ghost, mean / sum, unequal and empty shards, several steps) are compared with a single process on '
+           'the union; probe runs are compared with the generated release on binary64. gloo transport and scheduling are not modelled.'),
+ },
  'C16': {
   'technique': 'Coq proofs of state_dict / load_state_dict round trips, deep-copy isolation on a heap model, and resumed-run = uninterrupted-run by induction over batch sequences, on code regenerated from accountant.py / privacy_engine.py; real cut-point runs',
   'text': ('PARTIAL. Proved on the Gallina generated from IAccountant.state_dict / load_state_dict and PrivacyEngine.save_checkpoint / load_checkpoint: the saved history is a deep copy '
